@@ -1215,9 +1215,16 @@ func (e *Exec) exec1(op string, pos []string, kv map[string]string, line string)
 		}
 		return ans + " T=" + strings.Join(mid, " || ") + fmt.Sprintf(" R=%d:", len(rep)) + last
 	case "reopen":
+		poolBefore := e.poolObs(w.Main)
 		if err := w.Main.Reopen(); err != nil {
 			e.violate("reopen-failed", "reopen failed: "+err.Error(), "")
 			return "fail"
+		}
+		if poolAfter := e.poolObs(w.Main); poolAfter != poolBefore {
+			e.violate("running-differs-from-reopened:pool", fmt.Sprintf("pending pool of the running state machine {%s}, of the reopened one {%s}", poolBefore, poolAfter), "")
+		}
+		if e.out != nil {
+			e.out.Count(fmt.Sprintf("reopen-pending:%d", min(len(e.implPool()), 3)))
 		}
 		e.checkState(line)
 		return "ok"
@@ -1240,7 +1247,15 @@ func (e *Exec) exec1(op string, pos []string, kv map[string]string, line string)
 			return "fail"
 		}
 		a, b := e.observe(w.Main)+" L="+e.ledgerObsOf(w.Main), e.observe(c)+" L="+e.ledgerObsOf(c)
+		pa, pb2 := e.poolObs(w.Main), e.poolObs(c)
 		kvmem.Drop(c.Root)
+		if e.out != nil {
+			e.out.Count(fmt.Sprintf("cmpcopy-pending:%d", min(len(e.implPool()), 3)))
+		}
+		if pa != pb2 {
+			e.violate("running-differs-from-reopened:pool", fmt.Sprintf("pending pool of the running state machine {%s}, of instances reopened on a copy {%s}", pa, pb2), "")
+			return "differ"
+		}
 		if a != b {
 			e.violate("running-differs-from-reopened", fmt.Sprintf("running node {%s} vs instances reopened on a copy {%s}", a, b), "")
 			return "differ"
@@ -1258,7 +1273,7 @@ func (e *Exec) exec1(op string, pos []string, kv map[string]string, line string)
 	case "snap":
 		return e.snapCheck()
 	}
-	return "bad-op"
+	return e.execLedgerExt(op, pos, kv, line) // ledgerrace.go, ledgerfault.go
 }
 
 func makeTxid(tx *pb.Transaction) ([]byte, error) {
@@ -1288,7 +1303,9 @@ func (e *Exec) reconcilePool() {
 	// txs the implementation re-admitted in another order (recover after walk)
 	var rest []int
 	for i := range impl {
-		rest = append(rest, i)
+		if i >= 0 { // -1: the pool query failed, -2: a transaction the harness does not know (both reported by checkPool / poolObs)
+			rest = append(rest, i)
+		}
 	}
 	sort.Ints(rest)
 	e.pool = append(np, rest...)
